@@ -210,6 +210,15 @@ class Loader:
             'sha256': hashlib.sha256(seg.encode()).hexdigest(), 'lines': [node.lineno, node.end_lineno]}
         return m, node, cls
 
+    def note_interpreted(self, f):
+        """evidence: every repo function body the engine interprets (not only the anchors of the contracts)."""
+        key = '%s::%s' % (getattr(f.mod, 'relpath', None) or f.mod.dotted, f.qualname.split(f.mod.dotted + '.', 1)[-1])
+        if key in self.used_sources:
+            return
+        seg = ast.get_source_segment(f.mod.src, f.node) or ''
+        self.used_sources[key] = {'sha256': hashlib.sha256(seg.encode()).hexdigest(),
+                                  'lines': [f.node.lineno, f.node.end_lineno], 'role': 'interpreted (inlined callee)'}
+
     def funcref(self, relpath, qualname, bound=None):
         m, node, cls = self.find(relpath, qualname)
         cref = ClassRef(m, cls, m.dotted + '.' + cls.name) if cls is not None else None
